@@ -17,7 +17,7 @@ def run(ctx):
     from shapepy import ConnectedShape, DisjointShape, EmptyShape, IntegrateShape, SimpleShape, Primitive
     rng, drv = ctx.rng, ctx.drv
     E = EmptyShape()
-    n = 12 if ctx.quick else 500
+    n = 12 if ctx.quick else 120
     for it in range(n):
         kind = ["connected", "connected-unbounded", "disjoint"][it % 3]
         S0, d = shapes.make(rng, kind, rng.randint(-3, 3), rng.randint(-3, 3), drv)
